@@ -8,7 +8,7 @@ use crate::progcheck::{self, fnv, Judge, JR};
 use crate::realrun::{self, CompileOutcome, RunCfg};
 use cvx_core::engine::{Check, CheckInfo, ChunkResult, Tier, Violation};
 use cvx_core::gen_basic::{FExpr, FNest, FStmt, Family};
-use cvx_core::gen_more::{FArray, FCall, FLimits};
+use cvx_core::gen_more::{FArray, FCall, FLimits, FLongLoop};
 use cvx_core::ir::Module;
 use cvx_core::refsem::{self, CompileVerdict, Ob, Outcome};
 use cvx_core::region::{self, RegionOpts};
@@ -97,7 +97,7 @@ static THOROUGH: OnceLock<Vec<Box<dyn Family>>> = OnceLock::new();
 pub fn families(tier: Tier) -> &'static Vec<Box<dyn Family>> {
     match tier {
         Tier::Quick => QUICK.get_or_init(|| {
-            vec![Box::new(FExpr::new()), Box::new(FStmt::new(1)), Box::new(FStmt::new(2)), Box::new(FNest::new()), Box::new(FLimits::quick()), Box::new(FCall), Box::new(FArray)]
+            vec![Box::new(FExpr::new()), Box::new(FStmt::new(1)), Box::new(FStmt::new(2)), Box::new(FNest::new()), Box::new(FLimits::quick()), Box::new(FCall), Box::new(FArray), Box::new(FLongLoop)]
         }),
         Tier::Thorough => THOROUGH.get_or_init(|| {
             vec![
@@ -108,6 +108,7 @@ pub fn families(tier: Tier) -> &'static Vec<Box<dyn Family>> {
                 Box::new(FLimits::thorough()),
                 Box::new(FCall),
                 Box::new(FArray),
+                Box::new(FLongLoop),
                 Box::new(FStmt::new(3)),
             ]
         }),
@@ -132,7 +133,7 @@ impl Check for C01 {
     fn info(&self, tier: Tier) -> CheckInfo {
         let fams = families(tier);
         CheckInfo {
-            rule: "index -> program bijections: F-expr (every depth-1 expression over 11 binary cards, Not, Len, PopTable, GetProperty, Get and a 16-leaf operand alphabet incl. i64::MIN/MAX, reals, strings, tables; depth 2 over one representative per distinct depth-1 result), F-stmt (15 contexts: main, callees with 0-2 arguments and 0-2 caller locals, second-level callee, Repeat/ForEach/While bodies, IfTrue/IfElse branches, composite, closure body x ordered tuples of a ~65-statement alphabet, followed by an epilogue that logs every visible variable), F-nest (6 outer x 6 inner contexts x statement). Oracle: reference interpreter outcome (result kind, globals by name, host-call log with deep-converted arguments). 'states'/'distinct_nontrivial' = distinct reference outcomes within a 1000-case chunk, summed over chunks".into(),
+            rule: "index -> program bijections: F-expr (every depth-1 expression over 11 binary cards, Not, Len, PopTable, GetProperty, Get and a 16-leaf operand alphabet incl. i64::MIN/MAX, reals, strings, tables; depth 2 over one representative per distinct depth-1 result), F-stmt (15 contexts: main, callees with 0-2 arguments and 0-2 caller locals, second-level callee, Repeat/ForEach/While bodies, IfTrue/IfElse branches, composite, closure body x ordered tuples of a ~65-statement alphabet, followed by an epilogue that logs every visible variable), F-nest (6 outer x 6 inner contexts x statement), F-long-loop (Repeat / While / ForEach in main or in a callee running 100..1000 iterations - more than the value stack is high - with a body that declares a local or assigns, n in {100, 250, 253..256, 300, 1000}, or has a value-producing card in statement position, n in {100, 300}). Oracle: reference interpreter outcome (result kind, globals by name, host-call log with deep-converted arguments). 'states'/'distinct_nontrivial' = distinct reference outcomes within a 1000-case chunk, summed over chunks".into(),
             bound: format!("families {:?}, {} programs", fams.iter().map(|f| format!("{}={}", f.name(), f.len())).collect::<Vec<_>>(), progcheck::total_cases(fams)),
             exhaustive: true,
             assumptions: vec![
